@@ -455,6 +455,37 @@ def model_line(state, creads, cwrites, calls):
     return ' '.join(['ebb3', 'run'] + state.tokens() + [rd, wr] + [enc_call(c) for c in real_calls(calls)])
 
 
+GEN_FUEL = 1000
+
+
+def gen_line(state, creads, cwrites, calls):
+    """the same history for the SOURCE-REGENERATED methods (`ebb3gen run`, Drv/Ebb3Gen.lean): as `model_line`, but every
+    fault keeps its exception class"""
+    rd = '.' if not creads else ';'.join(('X' + o.key) if is_raise(o) else 'L' + enc_str(o) for o in creads)
+    wr = '.' if not cwrites else ''.join(cwrites)
+    return ' '.join(['ebb3gen', 'run', str(GEN_FUEL)] + state.tokens() + [rd, wr] + [enc_call(c) for c in real_calls(calls)])
+
+
+def compare_gen(ctx, scen, records, answer, what):
+    """validation of translator/pyio2lean.py: the regenerated methods must do exactly what the real methods did — result
+    (value / escaping exception class), bytes written, reads consumed, port, err, version, name, caller, port_name"""
+    if answer is None:
+        return True
+    outs = split_model_answer(answer)
+    for k, r in enumerate(records):
+        mine = record_tokens(r)
+        o = outs[k] if k < len(outs) else 'MISSING'
+        key = 'gen:same' if mine == o else 'gen:differs'
+        ctx.paths[key] = ctx.paths.get(key, 0) + 1
+        if mine != o:
+            a, b = mine.split(' '), o.split(' ')
+            diff = [FIELDS[i] for i in range(min(len(a), len(b), len(FIELDS))) if a[i] != b[i]] or ['outcome']
+            ctx.disagree(f"{what}: regenerated method (Gen.{r['call'][0]}, translator/pyio2lean.py) vs implementation: call {k} "
+                         f"differs in {','.join(diff)}", scen, mine, o)
+            return False
+    return True
+
+
 def split_model_answer(ans):
     return [] if ans == '' else ans.split(' | ')
 
@@ -816,10 +847,14 @@ def run_scenarios(ctx, scenarios, oracle, what, ignore=None):
         lines.append(model_line(sc.state, creads, cwrites, sc.calls))
         done.append((sc, recs, creads, cwrites))
     answers = ctx.driver.batch(lines) if ctx.driver else [None] * len(lines)
-    for (sc, recs, creads, cwrites), ans in zip(done, answers):
+    gen_on = bool(getattr(ctx, 'gen_stream', False)) and ctx.driver is not None
+    ganswers = ctx.driver.batch([gen_line(sc.state, cr, cw, sc.calls) for sc, _, cr, cw in done]) if gen_on else [None] * len(lines)
+    for (sc, recs, creads, cwrites), ans, gans in zip(done, answers, ganswers):
         desc = jsonable(sc, creads, cwrites)
         judge_side(ctx, desc, pl_of[id(recs)], what)
         compare(ctx, desc, recs, ans, what, (lambda k, r, outs, _sc=sc, _recs=recs: ignore(_sc, _recs, k, r, outs)) if ignore else None)
+        if gen_on:
+            compare_gen(ctx, desc, recs, gans, what)
         oracle(ctx, sc, recs, desc)
     return len(done)
 
